@@ -13,6 +13,30 @@ import re
 import sys
 
 
+import contextlib
+import os
+import signal
+
+CALL_TIMEOUT = int(os.environ.get('VERIF_CALL_TIMEOUT', '900'))
+
+
+class CallTimeout(Exception):
+    """A single library call did not return in time (recorded like any other exception on a valid input)."""
+
+
+@contextlib.contextmanager
+def watchdog(seconds):
+    def onalarm(signum, frame):
+        raise CallTimeout(f'no result after {seconds}s')
+    old = signal.signal(signal.SIGALRM, onalarm)
+    signal.alarm(seconds)
+    try:
+        yield
+    finally:
+        signal.alarm(0)
+        signal.signal(signal.SIGALRM, old)
+
+
 def _positions(labels, pos):
     return [pos.get(x, -1) for x in labels]
 
@@ -115,7 +139,7 @@ class CtxRecorder:
         alg = sys.modules[self.C.__name__ + '.algorithms']
         for which, fn in (('fast_generate_from', alg.fast_generate_from), ('fcbo_dual', alg.fcbo_dual),
                           ('get_concepts', alg.get_concepts), ('iterconcepts', alg.iterconcepts)):
-            res = [[self.O(x.members()), self.P(i.members())] for x, i in fn(self.ctx)]
+            res = [[self.O(x.members()), self.P(i.members())] for x, i in itertools.islice(fn(self.ctx), 300000)]
             self.ev('gen', which=which, res=res)
 
     # ------------------------------------------------------------------ C05
@@ -190,7 +214,9 @@ class CtxRecorder:
             it, key = lat.upset_union(seeds), 'index'
         else:
             it, key = lat.downset_union(seeds), 'dindex'
-        res = list(it)
+        # a traversal can never yield more members than the lattice has; cut runaway generators short
+        # (the repeats in the kept prefix already falsify the clause)
+        res = list(itertools.islice(it, 2 * len(ms) + 8))
         self.ev(name, seeds=[self.ext(c) for c in seeds], res=[self.ext(c) for c in res],
                 rank=[getattr(c, key) for c in res])
 
@@ -255,7 +281,7 @@ class CtxRecorder:
     def attributes(self, idx):
         lat = self.ctx.lattice
         c = self.members[idx]
-        gens = list(c.attributes())
+        gens = list(itertools.islice(c.attributes(), 5000))
         regen = [lat(g) for g in gens]
         self.ev('attributes', c=self.ext(c), res=[self.P(g) for g in gens],
                 regen=[self.ext(r) for r in regen], same=all(r is c for r in regen))
@@ -458,7 +484,8 @@ def drive(rec, table, b, families, rng, exhaustive_queries, nsub=10, nmulti=12, 
     def T(fn, *args, **kw):
         """A library call that raises on valid input is recorded, not propagated: the spec judges it."""
         try:
-            fn(*args, **kw)
+            with watchdog(CALL_TIMEOUT):
+                fn(*args, **kw)
             return True
         except Exception as exc:  # noqa
             rec.ev('crash', prop=prop, call=fn.__name__, args=repr((args, kw))[:300],
